@@ -132,6 +132,11 @@ type c06World struct {
 
 	// sink receives the non-Storage events (issuer calls, key generations); nil = the memory
 	// double's log. onGenKey / onIssued: extra notifications used by the process-death driver.
+	// rawGet / rawPut / snapFn: raw access to the storage contents for the harness itself (planting an
+	// OCSP staple, decoding the stored files); nil = the memory double
+	rawGet func(key string) ([]byte, bool)
+	rawPut func(key string, val []byte)
+	snapFn func(o *c06Obs)
 	sink     func(kind, key string)
 	onGenKey func(id int, digest string)
 	onIssued func(ser int, serial, stapleKey string)
@@ -367,7 +372,7 @@ func c06Classify(err error, dead bool) int {
 		return 3
 	case strings.Contains(s, "issuer down"):
 		return 4
-	case errors.Is(err, fs.ErrNotExist) || strings.Contains(s, "file does not exist"):
+	case errors.Is(err, fs.ErrNotExist) || strings.Contains(s, "file does not exist") || strings.Contains(s, "no such file or directory"):
 		return 1
 	}
 	return 5
@@ -405,7 +410,11 @@ func (w *c06World) revokeEnv(i int, kc bool) {
 		return
 	}
 	key := certmagic.StorageKeys.SiteCert(w.iss[i].key, w.subj.Canonical)
-	data, ok := w.b.Get(key)
+	get, put := w.b.Get, w.b.Put
+	if w.rawGet != nil {
+		get, put = w.rawGet, w.rawPut
+	}
+	data, ok := get(key)
 	if !ok {
 		return
 	}
@@ -430,7 +439,7 @@ func (w *c06World) revokeEnv(i int, kc bool) {
 	}
 	name := leaf.Subject.CommonName
 	sk := certmagic.StorageKeys.OCSPStaple(&certmagic.Certificate{Names: []string{strings.ToLower(name)}}, data)
-	w.b.Put(sk, resp)
+	put(sk, resp)
 	if id, ok := w.serIDs[leaf.SerialNumber.String()]; ok {
 		w.revoked[id] = kc
 	}
@@ -620,6 +629,10 @@ func (w *c06World) valClass(na time.Time) int {
 
 // snapshot decodes the raw storage contents (certificates/ namespace) with real crypto.
 func (w *c06World) snapshot(o *c06Obs) {
+	if w.snapFn != nil {
+		w.snapFn(o)
+		return
+	}
 	w.snapshotFrom(o, w.b.Keys(), func(k string) []byte { v, _ := w.b.Get(k); return v })
 }
 
